@@ -48,7 +48,7 @@ ASSUMPTIONS = [
 ]
 PROBES = [
     "vector_only_vs_tensor_only", "negative_mean_data", "single_row_parts", "rejected_between_accepted",
-    "negative_axis", "float32_part", "mean_much_larger_than_std", "nostats_after_aborted_apply", "tensor_4d", "apply_vector", "apply_tensor", "no_stats_tensor", "midway_apply",
+    "negative_axis", "float32_part", "mean_much_larger_than_std", "nostats_after_aborted_apply", "many_frames_in_one_call", "tensor_4d", "apply_vector", "apply_tensor", "no_stats_tensor", "midway_apply",
 ]
 FAULT_KINDS = ["rejected_wrong_dim", "rejected_empty", "apply_aborted_by_warning"]
 
@@ -121,6 +121,11 @@ def generate(rng, tier, k):
         n = rng.randrange(8, 129)
     else:
         n = rng.randrange(64, 600)
+    big = rng.random() < 0.01
+    if big:
+        # a whole utterance's worth of frames in one call, at / next to block sizes an implementation might use
+        regime, d = "exact", rng.choice((1, 2))
+        n = rng.choice((4096, 8192, 8192, 16384)) + rng.choice((0, 0, 0, 1, -1))
     rec = {"regime": regime, "n": n, "d": d, "seed": rng.randrange(1 << 30)}
     narrow = rng.random() < 0.15  # coefficients whose spread is tiny compared with their mean (but far from zero variance)
     if regime == "exact":
@@ -134,8 +139,8 @@ def generate(rng, tier, k):
         if narrow:
             rec["sigma"] = rng.choice((1.0, 2.0))
             rec["means"] = [rng.choice((30000.0, -8000.0, 100000.0, 0.0)) for _ in range(d)]
-    nh = rng.choice((3, 3, 4))
-    styles = ["vec", "one"] + ["mixed"] * (nh - 2)
+    nh = rng.choice((3, 3, 4)) if not big else 2
+    styles = (["vec", "one"] + ["mixed"] * (nh - 2)) if not big else ["one", "mixed"]
     rng.shuffle(styles)
     hist = [_gen_history(rng, n, d, s) for s in styles]
     queries = []
@@ -318,6 +323,8 @@ def execute(scn, keep_trace=False):
                 res.probe("tensor_4d")
             if len(part["rows"]) == 1:
                 res.probe("single_row_parts")
+            elif len(part["rows"]) >= 4096:
+                res.probe("many_frames_in_one_call")
             if last_was_reject_after_accept:
                 res.probe("rejected_between_accepted")
                 last_was_reject_after_accept = False
